@@ -42,7 +42,7 @@ def run(ctx):
                             "send events, rtc on/off, sync/async (facade and in-loop, events before/after explicit "
                             "activation); non-trivial = stored state differs from the initial one, or activation / "
                             "construction repeated, or the initial enter callbacks sent an event")
-    engine_check(ctx, PROFILE, 900, 20000, nontrivial, monitor=c11_monitor, tag="C11s", mutate=mutate)
+    engine_check(ctx, PROFILE, 900, 20000, nontrivial, monitor=c11_monitor, tag="C11s", mutate=mutate, share=0.62)
     cov1 = dict(ctx.coverage)
     engine_check(ctx, PROFILE_ASYNC, 300, 8000, nontrivial, monitor=c11_monitor, tag="C11a", mutate=mutate)
     for k in ("evaluations", "distinct_nontrivial", "traces_validated_against_impl", "disagreements", "monitor_failures"):
